@@ -29,7 +29,7 @@ pub fn families(a: &Args, rng: &mut Rng) -> Vec<Fam> {
     let core = vec![T::None, T::Eps, T::Chr(pool.a), T::Chr(pool.b), T::Rng(pool.a, pool.b), T::AllChar];
     let d2_stride = match a.rest.iter().position(|x| x == "--d2-stride") {
         Some(i) => a.rest[i + 1].parse().unwrap(),
-        None => a.sz(97, 13),
+        None => a.sz(61, 13),
     };
     let off = (a.seed as usize) % d2_stride;
     for t in depth2(&core, d2_stride, off, true) {
